@@ -21,6 +21,7 @@ func init() {
 			"R3 local first, verbatim (ESP on extract.Endorsement): no Get on a path where event-log evidence or quote evidence was found and ForceFetch is known false; returned evidence is the callee's result value itself. " +
 			"R3c with ForceFetch known true, extract.Endorsement returns success only after a successful network Get (a forced fetch never degrades to local evidence). " +
 			"R3b in the event-log lookup at most one locator is resolved per call (the first match in precedence order decides; a failed local locator does not fall through to the network one). R4 confinement: in extract/eventlog every os file access takes a path produced by securejoin.SecureJoin rooted at the reader's Root (error checked). " +
+			"R4b in the call closure of the event-log locator local evidence is read whole (no io.LimitReader / LimitedReader / CopyN, which truncate silently). " +
 			"R5b the events maker's result is published as file contents in the invocation that computed it and is never stored into a field or global (no unkeyed cache of events across firmwares). " +
 			"R5 emitted events: both SP800-155 events are built with one GUID value; the URI locator is GCETcbURL of a name derived from hex(golden digest). " +
 			"Not covered: parse-back equality of emitted events, symlink behaviour (securejoin trusted), the URL the firmware itself emitted in an event log (exel.Locate fetches it as is).",
@@ -414,6 +415,7 @@ func runC16(c *Ctx) {
 			okJoin := false
 			var join *ssa.Call
 			jsl := flow.NewSlicer(c.P)
+			jsl.LiftParams = 3 // the path may reach the file access through a reading helper's parameter
 			jsl.Visit(path, func(v ssa.Value) bool {
 				if cv, ok := v.(*ssa.Call); ok && cv.Call.StaticCallee() != nil && cv.Call.StaticCallee().String() == "github.com/cyphar/filepath-securejoin.SecureJoin" {
 					join = cv
@@ -426,6 +428,7 @@ func runC16(c *Ctx) {
 				// only origins: the join (no alternative un-joined path)
 				alt := false
 				osl := flow.NewSlicer(c.P)
+				osl.LiftParams = 3
 				osl.Visit(path, func(v ssa.Value) bool { return v != join }, func(t ssa.Value) {
 					if _, isK := t.(*ssa.Const); !isK {
 						alt = true
@@ -437,6 +440,45 @@ func runC16(c *Ctx) {
 		}
 	}
 	c.S.Floor("R4", "file accesses in extract/eventlog", 1, nOpen)
+
+	// ---------------- R4b: local evidence is read whole ----------------
+	// In the call closure of the event-log locator no reader is wrapped in a silent limit (io.LimitReader,
+	// io.LimitedReader, io.CopyN): such a reader ends at the limit without an error, and the truncated blob would be
+	// returned as the endorsement "byte for byte".
+	if loc := c.P.Func("extract/eventlog", "Locate"); loc != nil {
+		clo := c.reachable([]*ssa.Function{loc}, nil)
+		nRead, badR := 0, 0
+		for g := range clo {
+			if g == nil || c.isTestFunc(g) {
+				continue
+			}
+			for _, call := range callsIn(g, func(call ssa.CallInstruction) bool {
+				cal := call.Common().StaticCallee()
+				return cal != nil && cal.Pkg != nil && (cal.Pkg.Pkg.Path() == "io" || cal.Pkg.Pkg.Path() == "os" || cal.Pkg.Pkg.Path() == "io/ioutil")
+			}) {
+				cal := call.Common().StaticCallee()
+				switch cal.Name() {
+				case "ReadFile", "ReadAll", "ReadFull":
+					nRead++
+				case "LimitReader", "CopyN":
+					badR++
+					c.S.Bad("R4b", load.FuncName(g)+":"+cal.Pkg.Pkg.Path()+"."+cal.Name(), c.pos(call.Pos()), "local evidence is read through a reader that stops silently at a limit: a larger variable is returned truncated, not byte for byte and not refused")
+				}
+			}
+			for _, b := range g.Blocks {
+				for _, in := range b.Instrs {
+					if al, ok := in.(*ssa.Alloc); ok && namedIs(al.Type(), "io", "LimitedReader") {
+						badR++
+						c.S.Bad("R4b", load.FuncName(g)+":io.LimitedReader", c.pos(al.Pos()), "local evidence is read through a reader that stops silently at a limit")
+					}
+				}
+			}
+		}
+		c.S.Floor("R4b", "whole-file reads in the locator's closure", 1, nRead)
+		if badR == 0 {
+			c.S.OK("R4b", "extract/eventlog.Locate:evidence read whole", c.pos(loc.Pos()), fmt.Sprintf("%d whole reads, no limiting reader in the closure", nRead), true)
+		}
+	}
 
 	// ---------------- R5 ----------------
 	evtPkg := repoPath("eventlog")
